@@ -21,8 +21,8 @@ import functools
 import inspect
 import typing as tp
 
-from typelib import unmarshals
-from typelib.py import classes, compat, inspection
+from typelib import ctx, unmarshals
+from typelib.py import classes, compat, inspection, refs
 
 P = compat.ParamSpec("P")
 R = tp.TypeVar("R")
@@ -113,6 +113,21 @@ class BoundRoutine(tp.Generic[P, R]):
         return self.call(*bargs, **bkwargs)
 
 
+def _get_unmarshaller(
+    obj: tp.Callable, param: inspect.Parameter
+) -> unmarshals.AbstractUnmarshaller:
+    annotation = param.annotation
+    if annotation.__class__ is not str:
+        return unmarshals.unmarshaller(annotation)
+    # A string annotation names something in the module of the callable (not of whoever
+    #   binds it), which need not exist yet while that module is still being defined:
+    #   it is looked up there, when the first argument arrives.
+    ref = refs.forwardref(
+        annotation, is_argument=True, module=getattr(obj, "__module__", None)
+    )
+    return unmarshals.DelayedUnmarshaller(ref, ctx.TypeContext(), var=param.name)
+
+
 @compat.cache
 def _get_binding(obj: tp.Callable) -> AbstractBinding:
     sig = inspection.cached_signature(obj)
@@ -127,9 +142,7 @@ def _get_binding(obj: tp.Callable) -> AbstractBinding:
     varkwd: unmarshals.AbstractUnmarshaller | None = None
     varpos: unmarshals.AbstractUnmarshaller | None = None
     for i, (name, param) in enumerate(params.items()):
-        unmarshaller: unmarshals.AbstractUnmarshaller = unmarshals.unmarshaller(
-            param.annotation
-        )
+        unmarshaller: unmarshals.AbstractUnmarshaller = _get_unmarshaller(obj, param)
         if param.kind in (param.POSITIONAL_ONLY, param.POSITIONAL_OR_KEYWORD):
             binding[i] = unmarshaller
         if param.kind in (param.POSITIONAL_OR_KEYWORD, param.KEYWORD_ONLY):
